@@ -83,6 +83,15 @@ CHECKS["C20"] = dict(level="model_checking", ref="DESIGN.md §4 C20, §9",
     note="Trusted: TLC; Go's time package (zone rules); specifications with <= 3 items per field; the timer itself is exercised only in the thorough tier (real minutes).",
     tech="TLA+ semantics Cron.tla as TLC-evaluated oracle over the real scheduler's output; TLA+ model CronSched.tla model-checked and bound by trace validation of management-call histories")
 
+CHECKS["C19"] = dict(level="model_checking", ref="DESIGN.md §4 C19, §9",
+    text="TLA+ model Pool of the dispatch ring (pop worker, forward, push back; replace a dead worker on the spot; skip full mailboxes; drop only when all are "
+         "full; AddWorkers / RemoveWorkers; Kill) used as sequential oracle: systematic and seeded random operation histories (sends, requests, holding workers inside "
+         "their handler so that bounded mailboxes fill, releases, kills, add/remove) are executed on a real act.Pool with gated workers, every operation followed by "
+         "quiescence, and TLC replays each recorded line on the model: per worker what it handled, holds and has queued, who is alive (ring keeps its size), and "
+         "which reply reached which caller.",
+    note="Trusted: TLC; histories are sequential (quiescence after every operation), so concurrent dispatch races are outside this check; pool sizes 1-4, worker mailbox 0-3.",
+    tech="TLA+ model Pool evaluated by TLC as oracle over recorded histories of a real pool (trace validation)")
+
 NOT_YET = {
 }
 
